@@ -864,7 +864,7 @@ def evaluate(ctx, recipe, run, modes):
         ctx.count('oracle_cases')
         fails.append((dict(base_case, mode=None),
                       'RP66V1 inputs %s are given the same output path(s) %s; whose content survives depends on the order: %s' % (
-                          groups, sorted(f14_keys), '; '.join(f14_detail[:8])), 'F14'))
+                          groups, sorted(f14_keys), '; '.join(f14_detail[:8])), 'F14-rp66-output-name-collision'))
     return fails, single
 
 
